@@ -102,6 +102,37 @@ def _encode_side(prog, res, mod, kind, N, f):
                     if _obj_of(v) is _obj_of(value_obj):
                         okloop = True
     res.ob("G-count", "%s::encode | one loop, over the list itself, writes every element in order" % mod, okloop, "iterates " + it_desc, loc)
+    # what is written per iteration is the element itself (not a transformed copy)
+    if len(loops) == 1:
+        h, body = list(loops.items())[0]
+        writes = []
+        for x in sorted(body):
+            t = f.term(x)
+            if t["k"] == "call":
+                c = callee_of(t)
+                if c == PUT or (c in prog.fns and c.endswith("::encode")):
+                    writes.append((x, c, fa.call_args(x)))
+        okel = len(writes) == 1
+        d_el = "%d writes in the loop" % len(writes)
+        if okel:
+            x, c, a = writes[0]
+            v = a[1]
+            # item = next(&mut it)@Some.0 ; element encode gets the item reference itself, put gets *item
+            y = v
+            if c == PUT:
+                while y.op in ("memval",):
+                    y = y.args[0]
+                if y.op == "mem":
+                    y = y.args[0]
+                okw = is_const(a[2]) and const_val(a[2]) == 8
+            else:
+                okw = True
+                while y.op in ("ref", "mem", "memval"):
+                    y = y.args[0]
+            okel = okw and y.op == "field" and y.args[1] == 0 and y.args[0].op == "downcast" and y.args[0].args[1] == 1 and y.args[0].args[0].op == "call" \
+                and y.args[0].args[0].args[0] in libmodel.FINITE_NEXT
+            d_el = "writes %s" % show(v, names)
+        res.ob("G-count", "%s::encode | each iteration writes exactly the element it was given" % mod, okel, d_el, loc)
     count_puts = [(b, a, t) for b, a, t in puts if not any(b in body for body in loops.values())]
     if kind == "ext":
         res.ob("G-count", "%s::encode | writes no count of its own (the parent message carries it)" % mod, not count_puts, "%d puts outside the loop" % len(count_puts), loc)
@@ -167,6 +198,13 @@ def _decode_side(prog, res, mod, kind, N, f):
         if len(pushes) == 1:
             pushb = pushes[0]
     res.ob("G-count", "%s::decode | reads exactly `count` elements, pushing each once, in order" % mod, okr and pushb is not None, d, loc, sample=d)
+    if pushb is not None:
+        pv = fa.call_args(pushb)[1]
+        src = _continue_payload(pv)
+        okp = src is not None and src.op == "call" and (src.args[0] == PARSE or (src.args[0] in prog.fns and src.args[0].endswith("::decode")))
+        if okp and src.args[0] == PARSE:
+            okp = is_const(src.args[1][1]) and const_val(src.args[1][1]) == 8
+        res.ob("G-count", "%s::decode | the value pushed is exactly what the element decoder / 8-bit read returned" % mod, okp, show(pv, names), loc)
     # capacity guard: accepting arm has count in [0, N] exactly; rejecting arm returns CapacityExceeded
     if pushb is not None and N is not None:
         ni = iv.interval(_strip_casts(n_t) if False else n_t, pushb)
